@@ -53,6 +53,21 @@ Fixpoint string_stores (w : N) (data : list N) (start len : N) (i : N) : list ao
     else ([], i)
   end.
 
+(* the store funcinit emits for a non-string entry: funcstore(init->expr->type, dst, funcexpr(init->expr)) *)
+Definition entry_op (i : init) : aop :=
+  let before := bf_before (i_bits i) in
+  let aft := bf_after (i_bits i) in
+  let isbf := negb (before =? 0) || negb (aft =? 0) in
+  match i_expr i with
+  | EOpaque agg sz al id =>
+    if agg then ACopy (i_start i) sz al id
+    else if isbf then ABits (i_start i) sz before aft (VOpaque id)
+    else AStore (i_start i) sz (VOpaque id)
+  | e =>
+    let size := match e with EConst _ sz _ => sz | EAddr _ _ => 8 | _ => 0 end in
+    if isbf then ABits (i_start i) size before aft (aval_of e) else AStore (i_start i) size (aval_of e)
+  end.
+
 (* the loop of funcinit: state (offset, max, ops) *)
 Fixpoint funcinit_loop (align : N) (l : list init) (offset mx : N) (acc : list aop) : ares * N :=
   match l with
@@ -60,30 +75,18 @@ Fixpoint funcinit_loop (align : N) (l : list init) (offset mx : N) (acc : list a
   | i :: rest =>
     match zero_ops align offset (i_start i) acc with
     | AOk acc1 =>
-      let before := bf_before (i_bits i) in
-      let aft := bf_after (i_bits i) in
       match i_expr i with
       | EString w data =>
         let '(ops, n) := string_stores w data (i_start i) (sub64 (i_end i) (i_start i)) 0 in
         let offset' := w64 (i_start i + w64 (n * w)) in
         funcinit_loop align rest offset' (if mx <? offset' then offset' else mx) (acc1 ++ ops)
-      | e =>
-        let r := if (offset <? i_end i) && (negb (before =? 0) || negb (aft =? 0))
-                 then zero_ops align offset (i_end i) acc1 else AOk acc1 in
+      | _ =>
+        let isbf := negb (bf_before (i_bits i) =? 0) || negb (bf_after (i_bits i) =? 0) in
+        let r := if (offset <? i_end i) && isbf then zero_ops align offset (i_end i) acc1 else AOk acc1 in
         match r with
         | AOk acc2 =>
-          let size := match e with EConst _ sz _ => sz | EAddr _ _ => 8 | EOpaque _ sz _ _ => sz | _ => 0 end in
-          let op := match e with
-                    | EOpaque agg sz al id =>
-                      if agg then ACopy (i_start i) sz al id
-                      else if negb (before =? 0) || negb (aft =? 0) then ABits (i_start i) sz before aft (VOpaque id)
-                      else AStore (i_start i) sz (VOpaque id)
-                    | _ => if negb (before =? 0) || negb (aft =? 0)
-                           then ABits (i_start i) size before aft (aval_of e)
-                           else AStore (i_start i) size (aval_of e)
-                    end in
           let offset' := i_end i in
-          funcinit_loop align rest offset' (if mx <? offset' then offset' else mx) (acc2 ++ [op])
+          funcinit_loop align rest offset' (if mx <? offset' then offset' else mx) (acc2 ++ [entry_op i])
         | bad => (bad, mx)
         end
       end
